@@ -65,3 +65,45 @@ func runC18(r *Result, d *drv.Driver, tier string, seed int64, replay string) {
 		}
 	}
 }
+
+// ---- C19: structure fields use the spec's tag and nesting ------------------------------------------------
+
+func init() { props["C19"] = runC19 }
+
+func runC19(r *Result, d *drv.Driver, tier string, seed int64, replay string) {
+	r.Rule = "exhaustive: every annotated field of every exported struct type (195 fields, 58 types) — the number its annotation resolves to through the real Encode against the tag KMIP 1.4 assigns (SpecStructs, transcribed independently); " +
+		"every (struct type, tag it is written under) pair against the structure the spec puts directly around the type's items. distinct = one per field / per (type, container) pair"
+	r.Exhaustive = true
+	rep, err := d.Ask("c19")
+	if err != nil || !strings.HasPrefix(rep, "ok ") {
+		r.find(Finding{Kind: "disagreement", What: "driver failure", Input: fmt.Sprint(err, rep)})
+		return
+	}
+	parts := strings.SplitN(rep[3:], " ", 2)
+	n, _ := strconv.Atoi(parts[0])
+	r.Evaluations = n
+	for i := 0; i < n; i++ {
+		r.distinctSet[strconv.Itoa(i)] = true
+	}
+	// samples: real encodings showing the wire tags of two structures
+	kb := kmip.KeyBlock{FormatType: 1, WrappingData: kmip.KeyWrappingData{WrappingMethod: 1}}
+	out, _, _ := realEncode(kb)
+	r.sample(map[string]string{"value": "KeyBlock{FormatType:1, WrappingData:{WrappingMethod:1}}", "real_encode": out})
+	rr := kmip.RevokeRequest{RevocationReason: kmip.RevocationReason{RevocationReasonCode: 1, RevocationMessage: "m"}}
+	out, _, _ = realEncode(rr)
+	r.sample(map[string]string{"value": "RevokeRequest{RevocationReason:{Code:1, Message:\"m\"}}", "real_encode": out})
+	if len(parts) == 2 && parts[1] != "" {
+		for _, e := range strings.Split(parts[1], ";") {
+			f := strings.Split(e, "|")
+			if len(f) != 5 {
+				continue
+			}
+			switch f[0] {
+			case "field":
+				r.find(Finding{Kind: "violation", What: "field " + f[1] + " is not under the tag KMIP 1.4 assigns", Input: map[string]string{"field": f[1], "annotation": f[2]}, Expect: f[3], Actual: f[4]})
+			case "nesting":
+				r.find(Finding{Kind: "violation", What: "nesting: " + f[1] + " is not directly inside the structure KMIP 1.4 requires", Input: map[string]string{"type": f[1]}, Expect: f[3], Actual: f[4]})
+			}
+		}
+	}
+}
